@@ -37,6 +37,9 @@ func (rt *stressRT) RoundTrip(req *http.Request) (*http.Response, error) {
 	if rt.jitter > 0 && seq%3 == 0 {
 		time.Sleep(time.Duration(seq%7) * rt.jitter)
 	}
+	if rt.jitter < 0 && seq == 0 { // a negative "jitter": the first response is stalled by that much
+		time.Sleep(-rt.jitter)
+	}
 	ex := time.Since(rt.start)
 	rt.mu.Lock()
 	rt.enter[seq], rt.exit[seq] = en, ex
@@ -65,6 +68,8 @@ func TestDrv_C05(t *testing.T) {
 		cfgs = append(cfgs, cfg{w, w * 4, 0, 0}, cfg{w, w, 0, 20 * time.Microsecond}, cfg{w, 0, 200000, 0})
 	}
 	cfgs = append(cfgs, cfg{1, 16, 0, 20 * time.Microsecond}, cfg{1, 64, 0, 0}, cfg{0, 8, 0, 5 * time.Microsecond}, cfg{10, 5, 0, 0})
+	// paced attacks on a full pool whose first response stalls: the loop falls a whole unit behind and catches up (40 results each)
+	cfgs = append(cfgs, cfg{1, 1, 100, -230 * time.Millisecond}, cfg{2, 2, 200, -120 * time.Millisecond})
 	per := total/len(cfgs) + 1
 	const P = 16
 	trs := make([]*Tracer, P)
@@ -102,9 +107,13 @@ func TestDrv_C05(t *testing.T) {
 		}
 		rt.start = time.Now()
 		var got []*vegeta.Result
-		for r := range atk.Attack(tgt, vegeta.ConstantPacer{Freq: c.rate, Per: time.Second}, 0, "c05") {
+		pacer := vegeta.ConstantPacer{Freq: c.rate, Per: time.Second}
+		if c.jitter < 0 { // the same rate in units of 100 ms, so that the stall puts the loop more than a whole unit behind
+			pacer = vegeta.ConstantPacer{Freq: c.rate / 10, Per: 100 * time.Millisecond}
+		}
+		for r := range atk.Attack(tgt, pacer, 0, "c05") {
 			got = append(got, r)
-			if len(got) == per {
+			if len(got) == per || (c.jitter < 0 && len(got) == 40) {
 				atk.Stop()
 			}
 		}
